@@ -234,6 +234,55 @@ def work_helpers(args):
     return n, out
 
 
+def work_lifetimes(_):
+    """One Application object over its life: every sequence of <= 5 operations over {add to node A, add to node B, generate an
+    answer, stop}; every answer must carry the identity of the node the application belongs to at that moment."""
+    import itertools
+    sk.install()
+    from diameter.node import Node
+    from diameter.node.application import SimpleThreadingApplication, Application
+    from diameter.node.peer import Peer
+    from diameter.message.commands import AccountingRequest
+    out = []
+    n = 0
+    ops = ("A", "B", "answer", "stop")
+    for L in range(2, 6):
+        for seq in itertools.product(ops, repeat=L):
+            if seq[0] not in ("A", "B") or seq[-1] != "answer" or "answer" not in seq[:-1] and len({o for o in seq if o in "AB"}) < 2 and "stop" not in seq:
+                continue
+            n += 1
+            w = sk.World()
+            try:
+                nodes = {"A": Node("host-a.example.org", "realm-a.example"), "B": Node("host-b.example.net", "realm-b.example")}
+                app = Application(3, is_acct_application=True)
+                cur = None
+                case = {"lifetime": list(seq)}
+                for op in seq:
+                    if op in nodes:
+                        nd = nodes[op]
+                        p = nd.peers.get("peer.example.org") or nd.add_peer("aaa://peer.example.org", "example.org")
+                        nd.add_application(app, [p])
+                        cur = nd
+                    elif op == "stop":
+                        app.stop()
+                    else:
+                        req = AccountingRequest()
+                        req.session_id = "s;1"
+                        req.header.hop_by_hop_identifier = 7
+                        req.header.end_to_end_identifier = 8
+                        ans = app.generate_answer(req, result_code=2001)
+                        f = rc.Frame(ans.as_bytes())
+                        if f.get(264) != cur.origin_host.encode() or f.get(296) != cur.realm_name.encode():
+                            out.append(Violation("generate_answer[app]:origin-not-the-current-node's:after-the-application-moved",
+                                                 f"{case}: answer carries {f.get(264)}/{f.get(296)}, the application belongs to {cur.origin_host}/{cur.realm_name}", case))
+                            break
+            except Exception as e:
+                out.append(Violation("generate_answer[app]:raises:over-the-application's-life", f"{case}: {type(e).__name__}: {e}", case))
+            finally:
+                w.shutdown()
+    return n, out
+
+
 def _call(job):
     f, a = job
     return f(a)
@@ -314,6 +363,7 @@ def run(tier):
     jobs = [(work, (lo, lo + 8)) for lo in range(0, len(reg), 8)]
     jobs += [(work_helpers, (lo, lo + 12)) for lo in range(0, len(reg), 12)]
     jobs += [(work_node_paths, (p,)) for p in NODE_PATHS]
+    jobs += [(work_lifetimes, None)]
     total = 0
     for n, vs in common.pmap(_call, jobs, chunksize=1):
         total += n
@@ -332,6 +382,8 @@ def run(tier):
 def replay(case):
     if "node_path" in case:
         return work_node_paths((case["node_path"],))[1]
+    if "lifetime" in case:
+        return [v for v in work_lifetimes(None)[1] if v.case.get("lifetime") == case["lifetime"]]
     # re-run the whole class (cheap) and return what concerns it
     reg = registry()
     idx = [i for i, r in enumerate(reg) if r[0] == case.get("class")]
